@@ -305,8 +305,8 @@ def meas_sampled(ctx):
     @st.composite
     def cases(draw):
         c = draw(H.measure_cases(mw, mu, mm))
-        c["mode"] = draw(st.sampled_from(["dm", "save", "save", "desired", "one"]))
-        c["shots"] = 1 if c["mode"] == "one" else draw(st.sampled_from([1, 7, 100, 2000] if c["mode"] != "desired" else [1, 50, 1000]))
+        c["mode"] = draw(st.sampled_from(["save", "desired", "dm", "one", "save", "desired"]))
+        c["shots"] = 1 if c["mode"] == "one" else draw(st.sampled_from([100, 2000, 7, 1] if c["mode"] != "desired" else [50, 1000, 1, 5]))
         c["pick"] = draw(st.integers(0, 63))
         c["rsv"] = draw(st.booleans())
         return c
@@ -376,12 +376,32 @@ def meas_sampled(ctx):
                 sv = np.asarray(sv).reshape(-1)
                 if sv.shape != l["psi"].shape or np.max(np.abs(sv - l["psi"])) > 1e-8:
                     raise Fail(f"state returned for requested outcomes {b!r} with n_shots={N} differs from the branch state", sig="meas_sampled:desired:state")
-            pb = R.probs(l["psi"])
-            check_counts(f, N, n, "meas_sampled:desired", "conditioned run")
-            check_sampled(f, {R.bitstr(i, n): float(x) for i, x in enumerate(pb) if x > 0}, N, lambda k: None,
-                          "meas_sampled:desired", f"conditioned run on {b!r}")
-            if set(k[:n_meas] for k in be.all_frequencies) != {b} or set(be.mid_circuit_meas_freqs) != {b}:
-                raise Fail(f"all_frequencies / mid_circuit_meas_freqs do not carry the requested outcomes {b!r}", sig="meas_sampled:desired:keys")
+            allf, mid = be.all_frequencies, be.mid_circuit_meas_freqs
+            check_counts(allf, N, n_meas + n, "meas_sampled:desired:all", "all_frequencies")
+            check_counts(mid, N, n_meas, "meas_sampled:desired:mid", "mid_circuit_meas_freqs")
+            pb = {R.bitstr(i, n): float(x) for i, x in enumerate(R.probs(l["psi"])) if x > 0}
+            if set(mid) == {b}:
+                # every shot was conditioned on b: n_shots draws from the branch distribution
+                K = N
+                lab.add("desired:all-shots-conditioned")
+            else:
+                # shots were drawn from the joint law and the returned histogram is the post-selected part
+                K = round(mid.get(b, 0.0) * N)
+                lab.add("desired:post-selected")
+                check_sampled(allf, ref_all, N, p_all, "meas_sampled:desired:all", "all_frequencies (unconditioned shots)")
+                check_sampled(mid, ref_mid, N, p_mid, "meas_sampled:desired:mid", "mid_circuit_meas_freqs (unconditioned shots)")
+            cond = {k[n_meas:]: round(v * N) for k, v in allf.items() if k[:n_meas] == b}
+            if sum(cond.values()) != K:
+                raise Fail(f"all_frequencies={allf} inconsistent with mid_circuit_meas_freqs={mid}", sig="meas_sampled:desired:marginals")
+            if K == 0:
+                if f:
+                    raise Fail(f"no shot produced {b!r} but frequencies {f} were returned", sig="meas_sampled:desired:postselect")
+                lab.add("desired:no-success")
+            else:
+                check_counts(f, K, n, "meas_sampled:desired", "conditioned histogram")
+                if {k: round(v * K) for k, v in f.items()} != cond:
+                    raise Fail(f"returned frequencies {f} are not the shots of all_frequencies={allf} that carry {b!r}", sig="meas_sampled:desired:postselect")
+                check_sampled(f, pb, K, lambda k: None, "meas_sampled:desired", f"conditioned histogram on {b!r}")
             lab.add("desired-p<0.2" if l["p"] < 0.2 else "desired-p>=0.2")
         else:   # one shot, statevector of that shot
             f, sv = be.simulate(circ, initial_statevector=iv(init), save_mid_circuit_meas=True, return_statevector=True)
@@ -401,7 +421,10 @@ def meas_sampled(ctx):
                     raise Fail(f"final sample {x} impossible in branch {b!r}", sig="meas_sampled:one:final-support")
         return any(l["nontrivial"] for l in leaves), case_labels(case, leaves, n) | lab
 
-    ctx.search("meas_sampled", cases(), body)
+    ctx.search("meas_sampled", cases(), body,
+               exclusions={s: (lambda c: c.get("init") is not None and c["mode"] in ("save", "desired"))
+                           for s in ("meas_sampled:all:support", "meas_sampled:all:dist", "meas_sampled:desired:all:support",
+                                     "meas_sampled:desired:all:dist")})
 
 
 # ----------------------------------------------------------------------------------------------------- CMEASURE, exact
@@ -459,9 +482,10 @@ def cmeas_exact(ctx):
             if pt is None or abs(pt - l["p"]) > 1e-9:
                 raise Fail(f"success_probabilities[{b!r}]={pt}, Born probability {l['p']}", sig="cmeas_exact:probability")
             check_exact_freqs(be.all_frequencies, p, n, "cmeas_exact:all_frequencies", f"all_frequencies of branch {b!r}", prefix=b)
-            mid = be.mid_circuit_meas_freqs
-            if set(mid) != {b} or abs(mid[b] - 1) > 1e-7:
-                raise Fail(f"mid_circuit_meas_freqs={mid} for requested outcomes {b!r}", sig="cmeas_exact:mid")
+            if case["save"]:      # attribute documented under save_mid_circuit_meas=True
+                mid = be.mid_circuit_meas_freqs
+                if set(mid) != {b} or abs(mid[b] - 1) > 1e-7:
+                    raise Fail(f"mid_circuit_meas_freqs={mid} for requested outcomes {b!r}", sig="cmeas_exact:mid")
             if is_cls:
                 if len(ctrl_obj.log) != nlog + 1 or ctrl_obj.log[-1] != l["hist"] or ctrl_obj.history != "":
                     raise Fail(f"control object after one run with outcomes {b!r}: log grew by {len(ctrl_obj.log) - nlog}, last entry "
@@ -489,7 +513,10 @@ def cmeas_exact(ctx):
                 check_trace(generate_applied_gates(circ), ones, "cmeas:generate_applied_gates:default", "generate_applied_gates(default outcomes)")
         return any(l["nontrivial"] for l in leaves), case_labels(case, leaves, n) | {f"rsv={case['rsv']}"}
 
-    ctx.search("cmeas_exact", cases(), body)
+    ctx.search("cmeas_exact", cases(), body,
+               exclusions={"cmeas_exact:mid": lambda c: c["save"],
+                           "cmeas:generate_applied_gates": growth, "cmeas_exact:alive-branch-refused": growth,
+                           "cmeas_exact:applied_gates": growth})
 
 
 # ----------------------------------------------------------------------------------------------------- CMEASURE, sampled
@@ -502,8 +529,8 @@ def cmeas_sampled(ctx):
     @st.composite
     def cases(draw):
         c = draw(H.cmeasure_cases(mw, min(mu, 8), mm, dp).filter(lambda c: H.bounded(c, cap, 4 * mp)))
-        c["mode"] = draw(st.sampled_from(["shots", "shots", "shots", "desired", "one"]))
-        c["shots"] = 1 if c["mode"] == "one" else draw(st.sampled_from([1, 10, 60, 300] if ctx.tier == "quick" else [1, 10, 100, 1000]))
+        c["mode"] = draw(st.sampled_from(["shots", "desired", "shots", "one", "shots"]))
+        c["shots"] = 1 if c["mode"] == "one" else draw(st.sampled_from([60, 300, 10, 1] if ctx.tier == "quick" else [100, 1000, 10, 1]))
         c["pick"] = draw(st.integers(0, 63))
         c["rsv"] = draw(st.booleans())
         return c
@@ -562,7 +589,10 @@ def cmeas_sampled(ctx):
             l = cand[case["pick"] % len(cand)]
             b = l["b"]
             ctx.np_seed(case)
-            f, sv = be.simulate(circ, desired_meas_result=b, return_statevector=case["rsv"], initial_statevector=iv(init))
+            try:
+                f, sv = be.simulate(circ, desired_meas_result=b, return_statevector=case["rsv"], initial_statevector=iv(init))
+            except ValueError as e:
+                raise Fail(f"outcome string {b!r} has probability {l['p']} but was refused: {e}", sig="cmeas_sampled:alive-branch-refused")
             check_trace(circ.applied_gates, l, "cmeas_sampled:applied_gates", "applied_gates")
             if case["rsv"]:
                 sv = np.asarray(sv).reshape(-1)
@@ -631,4 +661,5 @@ def cmeas_sampled(ctx):
                     raise Fail(f"state of the single shot with outcomes {b_last!r} differs from the branch state", sig="cmeas_sampled:one:state")
         return any(x["nontrivial"] for x in leaves), case_labels(case, leaves, n) | lab
 
-    ctx.search("cmeas_sampled", cases(), body)
+    ctx.search("cmeas_sampled", cases(), body,
+               exclusions={"cmeas_sampled:applied_gates": growth, "cmeas_sampled:alive-branch-refused": growth})
